@@ -5,6 +5,7 @@ import (
 	"fmt"
 	"os"
 	"runtime"
+	"strconv"
 	"strings"
 
 	"gosymx/exec"
@@ -47,6 +48,11 @@ func cmdRun(args []string) {
 	verbose := fs.Bool("v", false, "verbose")
 	merge := fs.String("merge", "", "comma-separated merge-mode functions")
 	pctext := fs.Bool("pc", false, "keep PC text")
+	replay := fs.Bool("replay", false, "replay witnesses and samples natively")
+	conc := fs.String("concrete", "", "semicolon-separated witness: run the interpreter concretely")
+	guide := fs.String("guide", "", "semicolon-separated witness: follow its path symbolically")
+	traceif := fs.String("traceif", "", "write every If decision to this file")
+	argstr := fs.String("args", "", "comma-separated int64 harness arguments")
 	fs.Parse(args)
 	w, err := exec.Load(*repo, *hdir)
 	if err != nil {
@@ -59,16 +65,42 @@ func cmdRun(args []string) {
 		os.Exit(2)
 	}
 	cfg := &exec.Config{MaxSteps: *maxSteps, MaxLoopIter: *maxLoop, SampleModel: true, MergeFuncs: map[string]bool{}, KeepPCText: *pctext}
+	for _, a := range strings.Split(*argstr, ",") {
+		if a != "" {
+			v, err := strconv.ParseInt(a, 10, 64)
+			if err != nil {
+				fmt.Fprintln(os.Stderr, err)
+				os.Exit(2)
+			}
+			cfg.Args = append(cfg.Args, v)
+		}
+	}
+	if *conc != "" {
+		cfg.ConcreteWitness = strings.Split(*conc, ";")
+	}
+	if *guide != "" {
+		cfg.Guide = strings.Split(*guide, ";")
+	}
+	if *traceif != "" {
+		f, err := os.Create(*traceif)
+		if err != nil {
+			panic(err)
+		}
+		defer f.Close()
+		cfg.TraceIf = f
+	}
 	for _, f := range strings.Split(*merge, ",") {
 		if f != "" {
 			cfg.MergeFuncs[f] = true
 		}
 	}
+	obSum := map[string]int{}
 	st, err := exec.Explore(w, cfg, entry, *workers, *maxPaths, *timeout, *solver, func(r *exec.PathResult) {
 		if *verbose || r.Status != exec.PathOK {
 			fmt.Printf("path %v: %s %s %s steps=%d q=%d\n", r.Trace, r.Status, r.Detail, r.PanicMsg, r.Steps, r.Queries)
 		}
 		for _, o := range r.Obligations {
+			obSum[o.ID+":"+o.Result]++
 			if *verbose || (o.Result != "unsat" && o.Result != "concrete-true") {
 				fmt.Printf("  obligation %s: %s %v\n", o.ID, o.Result, o.WitnessV)
 			}
@@ -78,6 +110,11 @@ func cmdRun(args []string) {
 				fmt.Printf("  monitor %v\n", mo)
 			}
 			fmt.Printf("  sample %v %v\n", r.SampleNames, r.Sample)
+			var obs []string
+			for _, ob := range r.Observes {
+				obs = append(obs, ob.ID+"="+ob.Val)
+			}
+			fmt.Printf("  observes %v\n", obs)
 			for _, t := range r.PCText {
 				fmt.Println("   pc:", t)
 			}
@@ -87,5 +124,52 @@ func cmdRun(args []string) {
 		fmt.Fprintln(os.Stderr, err)
 		os.Exit(2)
 	}
+	if *replay {
+		rp := &exec.Replayer{RepoDir: *repo, HarnessDir: *hdir, WorkDir: fmt.Sprintf("/verif/.work/%d", os.Getpid())}
+		defer rp.Cleanup()
+		if err := rp.Build(w); err != nil {
+			fmt.Fprintln(os.Stderr, err)
+			os.Exit(2)
+		}
+		var cases []exec.ReplayCase
+		var what []string
+		for _, r := range st.Results {
+			for _, o := range r.Obligations {
+				if o.Result == "sat" && o.WitnessV != nil {
+					cases = append(cases, exec.ReplayCase{Harness: *harness, Args: cfg.Args, Witness: o.WitnessV})
+					what = append(what, "sat:"+o.ID)
+				}
+			}
+			if r.Sample != nil {
+				cases = append(cases, exec.ReplayCase{Harness: *harness, Args: cfg.Args, Witness: r.Sample})
+				var obs []string
+				for _, ob := range r.Observes {
+					obs = append(obs, ob.ID+"="+ob.Val)
+				}
+				what = append(what, fmt.Sprintf("sample status=%s panic=%q observes=%v", r.Status, r.PanicMsg, obs))
+			}
+		}
+		res, err := rp.Run(cases)
+		if err != nil {
+			fmt.Fprintln(os.Stderr, err)
+		}
+		for i, rr := range res {
+			if strings.HasPrefix(what[i], "sample") {
+				exp := what[i][strings.Index(what[i], "observes=")+9:]
+				var got []string
+				for _, o := range rr.Observes {
+					got = append(got, strings.ReplaceAll(o, "=-", "=(- ")+map[bool]string{true: ")", false: ""}[strings.Contains(o, "=-")])
+				}
+				if fmt.Sprint(got) != exp {
+					fmt.Printf("MISMATCH %v\n  sym:    %s\n  native: %v\n", cases[i].Witness, exp, got)
+				}
+			}
+			if strings.HasPrefix(what[i], "sat:") || rr.Panic != "" || len(rr.Failed) > 0 || *verbose {
+				fmt.Printf("replay[%s] %v -> failed=%v panic=%q observes=%v short=%v badassume=%v\n", what[i], cases[i].Witness, rr.Failed, rr.Panic, rr.Observes, rr.Short, rr.BadAssume)
+			}
+		}
+		fmt.Printf("replayed %d cases (build %.1fs)\n", len(res), rp.BuildTime.Seconds())
+	}
+	fmt.Printf("obligations=%v\n", obSum)
 	fmt.Printf("paths=%d status=%v queries=%d solver=%.2fs wall=%.2fs truncated=%v\n", st.Paths, st.ByStatus, st.Queries, st.SolverTime.Seconds(), st.Wall.Seconds(), st.Truncated)
 }
